@@ -7,6 +7,9 @@ caller keeps the handle: every call either raises -- and must then contribute NO
 of that same transaction publishes -- or is accepted and is published exactly once by the commit.
 
 Judgement (independent reader, no model):
+  pre-built files          -> come with the statistics a caller may attach to a DataFile (lower_bounds / upper_bounds: none,
+                              the true ones, those of other content, too narrow, under other columns' ids, one side only):
+                              a CLAIM about the file -- whatever is claimed, every stored value must be found by filtered scans
   rejected call            -> table state unchanged right after the call
   commit                   -> snapshot list grows by one iff some call was accepted; the full scan returns exactly
                               the rows of all accepted calls so far (records: `exact`; pre-built files: their own
@@ -112,6 +115,52 @@ FAULT_SPECS = [
 ]
 
 
+# what the caller of append_files claims about a file's content (DataFile.lower_bounds / upper_bounds)
+STATS = ["none", "true", "shifted", "narrow", "swapped_ids", "lower_only", "upper_only", "empty"]
+
+
+def claimed_bounds(fields: List[Dict[str, Any]], rows: List[Dict[str, Any]], stats: Optional[str]) -> Tuple[Optional[Dict[Any, Any]], Optional[Dict[Any, Any]]]:
+    """(lower_bounds, upper_bounds) as {field id: value} a caller attaches under the claim `stats`.  Deterministic in
+    (fields, rows, stats); rows are the file's rows as stored."""
+    if stats in (None, "none"):
+        return None, None
+    if stats == "empty":
+        return {}, {}
+    lo: Dict[Any, Any] = {}
+    hi: Dict[Any, Any] = {}
+    for f in fields:
+        if f["type"] in ("binary", "fixed"):
+            continue
+        vals = [r.get(f["name"]) for r in rows]
+        vals = [v for v in vals if v is not None and not (isinstance(v, float) and v != v)]
+        if not vals:
+            continue
+        try:
+            mn, mx = min(vals), max(vals)
+            above = [g for g in good_values(f["type"]) if not (isinstance(g, float) and g != g) and g > mx]
+            below = [g for g in good_values(f["type"]) if not (isinstance(g, float) and g != g) and g < mn]
+        except TypeError:
+            continue
+        if stats == "narrow":
+            lo[f["id"]] = hi[f["id"]] = vals[-1]         # the bounds of the LAST row only
+        elif stats in ("true", "swapped_ids"):
+            lo[f["id"]], hi[f["id"]] = mn, mx
+        elif above:                                      # shifted / lower_only / upper_only: bounds of other content
+            lo[f["id"]] = hi[f["id"]] = above[0]
+        elif below:
+            lo[f["id"]] = hi[f["id"]] = below[-1]
+    if stats == "swapped_ids":
+        ids = [f["id"] for f in fields]
+        rot = dict(zip(ids, ids[1:] + ids[:1]))
+        lo = {rot[k]: v for k, v in lo.items()}
+        hi = {rot[k]: v for k, v in hi.items()}
+    if stats == "lower_only":
+        return lo, None
+    if stats == "upper_only":
+        return None, hi
+    return lo, hi
+
+
 FILE_KINDS_BAD = ["missing", "avro", "orc_declared", "noncanonical", "reordered", "retyped", "nullability", "extra_col", "garbage"]
 ENDS = ["commit", "commit", "commit", "commit", "rollback", "abandon", "commit_fails"]
 
@@ -131,7 +180,16 @@ def table_footer(fields: List[Dict[str, Any]]):
 
 
 # ---------------------------------------------------------------------------------- generation
-def gen_file(rng, fields: List[Dict[str, Any]], kind: str) -> Dict[str, Any]:
+def gen_file(rng, fields: List[Dict[str, Any]], kind: str, stats: Optional[str] = None) -> Dict[str, Any]:
+    if stats is None:
+        stats = "none" if rng.random() < 0.5 else rng.choice(STATS)
+    out = _gen_file_rows(rng, fields, kind)
+    if stats != "none":
+        out["stats"] = stats
+    return out
+
+
+def _gen_file_rows(rng, fields: List[Dict[str, Any]], kind: str) -> Dict[str, Any]:
     n = rng.choice([1, 1, 2, 3])
     rows = []
     for _ in range(n):
@@ -202,6 +260,7 @@ def tx_case_json(case: Dict[str, Any]) -> Dict[str, Any]:
         for c in tx["calls"]:
             if c["op"] == "files":
                 calls.append({"op": "files", "files": [{"kind": f["kind"], "rows": [enc_record(r) for r in f["rows"]],
+                                                        **({"stats": f["stats"]} if f.get("stats") else {}),
                                                         **({"layout": f["layout"]} if f.get("layout") else {})} for f in c["files"]]})
             else:
                 calls.append({"op": "records", "variant": c["variant"], "arg": c["arg"], "sid": c["sid"], "build": c.get("build", "fresh"),
@@ -219,6 +278,7 @@ def tx_case_unjson(j: Dict[str, Any]) -> Dict[str, Any]:
         for c in tx["calls"]:
             if c["op"] == "files":
                 calls.append({"op": "files", "files": [{"kind": f["kind"], "rows": [dec_record(r) for r in f["rows"]],
+                                                        **({"stats": f["stats"]} if f.get("stats") else {}),
                                                         **({"layout": f["layout"]} if f.get("layout") else {})} for f in c["files"]]})
             else:
                 calls.append({"op": "records", "variant": c["variant"], "arg": c["arg"], "sid": c["sid"], "build": c.get("build", "fresh"),
@@ -230,9 +290,10 @@ def tx_case_unjson(j: Dict[str, Any]) -> Dict[str, Any]:
 
 
 # ---------------------------------------------------------------------------------- materialising pre-built files
-def build_file(root: str, fields: List[Dict[str, Any]], spec: Dict[str, Any], name: str) -> Tuple[Any, str, List[Dict[str, Any]], Any]:
+def build_file(root: str, fields: List[Dict[str, Any]], spec: Dict[str, Any], name: str) -> Tuple[Any, str, List[Dict[str, Any]], Any, Any]:
     """Write the pre-built file `spec` under data/ and return (DataFile, table-relative path, rows as a reader
-    sees them, footer as [(name, type, nullable)] or None when there is no readable parquet footer)."""
+    sees them, footer as [(name, type, nullable)] or None when there is no readable parquet footer, the (lower,
+    upper) bounds the DataFile claims)."""
     import pyarrow as pa
     import pyarrow.parquet as pq
     from datashard.data_structures import DataFile, FileFormat
@@ -294,8 +355,10 @@ def build_file(root: str, fields: List[Dict[str, Any]], spec: Dict[str, Any], na
     path = "/" + rel
     if kind == "noncanonical":
         path = f"/data//{name}{ext}"
-    df = DataFile(file_path=path, file_format=fmt, partition_values={}, record_count=max(1, len(spec["rows"])), file_size_in_bytes=size)
-    return df, rel, rows_seen, foot
+    claim_lo, claim_hi = claimed_bounds(spec.get("layout") or fields, rows_seen, spec.get("stats")) if foot is not None else (None, None)
+    df = DataFile(file_path=path, file_format=fmt, partition_values={}, record_count=max(1, len(spec["rows"])), file_size_in_bytes=size,
+                  lower_bounds=copy.deepcopy(claim_lo), upper_bounds=copy.deepcopy(claim_hi))
+    return df, rel, rows_seen, foot, (claim_lo, claim_hi)
 
 
 # ---------------------------------------------------------------------------------- running a tx case on the real library
@@ -351,10 +414,11 @@ def run_tx_case(case: Dict[str, Any], root: str, filters_per_col: int = 1) -> Di
                     dfs = []
                     cev["files"] = []
                     for fi, spec in enumerate(call["files"]):
-                        df, rel, rows_seen, foot = build_file(root, fields, spec, f"pre_{ti}_{ci}_{fi}")
+                        df, rel, rows_seen, foot, claim = build_file(root, fields, spec, f"pre_{ti}_{ci}_{fi}")
                         dfs.append(df)
                         paths.append(rel)
-                        cev["files"].append({"kind": spec["kind"], "footer": foot, "rows": rows_seen, "path": rel})
+                        cev["files"].append({"kind": spec["kind"], "footer": foot, "rows": rows_seen, "path": rel, "claim": claim,
+                                             "stats": spec.get("stats", "none")})
                         mine += [(opaque if set(r) == set(opaque) else {k: "opaque" for k in r}, r) for r in rows_seen]
                     b = observe(root)               # the files were put there by the caller, before the call
                     inj.arm(call.get("fault"))
@@ -465,7 +529,10 @@ def run_tx_case(case: Dict[str, Any], root: str, filters_per_col: int = 1) -> Di
                             break
                         tev["filters"] = tev.get("filters", 0) + 1
                         if not _same_rows(res, want):
-                            violations.append(("tx-mis-filter", f"tx {ti}: scan(filter={col} {op} {lit!r:.80}) returns {len(res)} rows, the full scan holds {len(want)} matching rows"))
+                            claims = sorted({f.get("stats", "none") for c in tev["calls"] for f in c.get("files", [])} - {"none"})
+                            violations.append(("tx-mis-filter" + (":prebuilt-bounds" if claims else ""),
+                                               f"tx {ti}: scan(filter={col} {op} {lit!r:.80}) returns {len(res)} rows, the full scan holds {len(want)} matching rows"
+                                               + (f" (pre-built files of this transaction came with caller-supplied bounds: {claims})" if claims else "")))
                             break
         trace.append(tev)
         if violations:
@@ -504,6 +571,11 @@ def shrink_tx(case: Dict[str, Any], fails) -> Dict[str, Any]:
                         if len(call["files"]) > 1:
                             d = copy.deepcopy(c)
                             del d["txs"][i]["calls"][j]["files"][k]
+                            yield d
+                    for k, f in enumerate(call["files"]):
+                        if f.get("stats"):
+                            d = copy.deepcopy(c)
+                            del d["txs"][i]["calls"][j]["files"][k]["stats"]
                             yield d
                     for k, f in enumerate(call["files"]):
                         if len(f["rows"]) > 1:
